@@ -171,23 +171,26 @@ func checkLaplacian(t *vlib.T, b *built) {
 	t.Detail(map[string]any{"graph": sp.String(), "ids": b.ids})
 }
 
-func genLaplacian(g *vlib.G) {
-	for _, s := range []graphSpace{
+func genLaplacian(g *vlib.G, large bool) {
+	spaces := []graphSpace{
 		{n: 0}, {n: 1}, {n: 2}, {n: 3}, {n: 4}, {n: 5},
-		{n: 3, weighted: true}, {n: 4, weighted: true}, {n: 5, weighted: true, stride: vlib.Pick(g, 7, 1), rotate: true},
+		{n: 3, weighted: true}, {n: 4, weighted: true},
 		{n: 1, directed: true}, {n: 2, directed: true}, {n: 3, directed: true},
-		{n: 4, directed: true}, {n: 3, directed: true, weighted: true},
-		{n: 4, directed: true, weighted: true, stride: vlib.Pick(g, 29, 3), offset: 2},
-	} {
-		s := s
-		s.noMulti = true // documented for simple graphs
-		forGraphs(s, s.stride <= 1 && !s.rotate, func(key string, mk func() *built) {
-			g.Case(key, func(t *vlib.T) { checkLaplacian(t, mk()) })
-		})
-		if g.Stopped() {
-			return
-		}
+		{n: 3, directed: true, weighted: true},
+		// weights are ignored; a zero-weight edge is an edge
+		{n: 3, weighted: true, alpha: alpha012}, {n: 4, weighted: true, alpha: alpha01, rotate: true},
+		{n: 3, directed: true, weighted: true, alpha: alpha012, stride: 3, offset: 1},
+		{n: 4, directed: true, large: true},
+		{n: 5, weighted: true, stride: vlib.Pick(g, 7, 1), rotate: true, large: true},
+		{n: 4, directed: true, weighted: true, stride: vlib.Pick(g, 29, 3), offset: 2, large: true},
+		{n: 5, weighted: true, zeroOut: true, stride: vlib.Pick(g, 23, 3), offset: 1, large: true},
 	}
+	for i := range spaces {
+		spaces[i].noMulti = true // documented for simple graphs
+	}
+	eachSpace(g, large, spaces, func(s graphSpace, key string, mk func() *built) {
+		g.Case(key, func(t *vlib.T) { checkLaplacian(t, mk()) })
+	})
 }
 
 // ---- diffusion ----
@@ -374,20 +377,21 @@ func zeros(v []float64) int {
 	return c
 }
 
-func genDiffuse(g *vlib.G) {
-	for _, s := range []graphSpace{
-		{n: 1, noMulti: true}, {n: 2, noMulti: true}, {n: 3, noMulti: true}, {n: 4, noMulti: true},
-		{n: 5, rotate: true, noMulti: true},
-		{n: 2, directed: true, noMulti: true}, {n: 3, directed: true, noMulti: true},
-		{n: 4, directed: true, stride: vlib.Pick(g, 4, 1), offset: vlib.Pick(g, 1, 0), rotate: true, noMulti: true},
-	} {
-		forGraphs(s, s.stride <= 1 && !s.rotate, func(key string, mk func() *built) {
-			g.Case(key, func(t *vlib.T) { checkDiffuse(t, mk()) })
-		})
-		if g.Stopped() {
-			return
-		}
+func genDiffuse(g *vlib.G, large bool) {
+	spaces := []graphSpace{
+		{n: 1}, {n: 2}, {n: 3}, {n: 4},
+		{n: 2, directed: true}, {n: 3, directed: true},
+		{n: 3, weighted: true, alpha: alpha012}, {n: 2, directed: true, weighted: true, alpha: alpha012},
+		{n: 5, rotate: true, large: true},
+		{n: 4, directed: true, stride: vlib.Pick(g, 4, 1), offset: vlib.Pick(g, 1, 0), rotate: true, large: true},
+		{n: 4, weighted: true, alpha: alpha01, stride: 5, offset: 2, large: true},
 	}
+	for i := range spaces {
+		spaces[i].noMulti = true
+	}
+	eachSpace(g, large, spaces, func(s graphSpace, key string, mk func() *built) {
+		g.Case(key, func(t *vlib.T) { checkDiffuse(t, mk()) })
+	})
 }
 
 // ---- documented panic on self edges ----
